@@ -238,8 +238,61 @@ Definition udp_crash_trace : list label :=
   [LCallServe; LFactoryDone 0; LInitDone 0; LUdpQueue; LCallShutdown; LWake 0; LTaskDone; LServeExit 0; LShutdownWake 1].
 
 Lemma udp_crash_witness :
+  Gen.ParamsC18.udp_restart_guarded = false ->
   exists s o, run_trace init udp_crash_trace = Some (s, o) /\ In (Ret 0 OCrash) o /\ In (Ret 1 OOk) o /\ ev s = true.
-Proof. eexists; eexists. split; [vm_compute; reflexivity|]. simpl. auto. Qed.
+Proof.
+  (* works whatever the regenerated parameter says: either the hypothesis is absurd or the witness computes *)
+  intros H.
+  first [ (vm_compute in H; discriminate H)
+        | (eexists; eexists; split; [vm_compute; reflexivity | simpl; auto]) ].
+Qed.
+
+(* ... and with the restart guarded (the proposed fix), no call ever ends that way *)
+Local Opaque Gen.ParamsC18.udp_restart_guarded.
+
+Lemma crash_only_unguarded :
+  forall s l s' o id, step s l = Some (s', o) -> In (Ret id OCrash) o -> Gen.ParamsC18.udp_restart_guarded = false.
+Proof.
+  intros s l s' o id0 St Hin. destruct l; simpl in St.
+  - destruct (negb (ev s)); [inversion St; subst; simpl in Hin; intuition congruence|]. simpl in St.
+    unfold enter_setup in St. simpl in St.
+    destruct (closed s); [inversion St; subst; simpl in Hin; intuition congruence|].
+    destruct (lst s); try destruct (guard s); inversion St; subst; simpl in Hin; intuition congruence.
+  - destruct (closer s); [inversion St; subst; simpl in Hin; tauto|].
+    unfold start_close in St. simpl in St. destruct (guard s); inversion St; subst; simpl in Hin; intuition congruence.
+  - unfold cancel_scope_if_any in St. simpl in St.
+    destruct (scope s); simpl in St; destruct (ev s); inversion St; subst; simpl in Hin; intuition congruence.
+  - destruct (stask s); try discriminate; destruct (lst s); try discriminate; inversion St; subst; simpl in Hin; tauto.
+  - destruct (clients s); try discriminate; inversion St; subst; simpl in Hin; tauto.
+  - inversion St; subst; simpl in Hin; intuition congruence.
+  - destruct (stask s); try discriminate; destruct (lst s); try discriminate; inversion St; subst; simpl in Hin; tauto.
+  - destruct (take id (serves s)) as [[[] r]|]; try discriminate. simpl in St.
+    unfold enter_setup in St. simpl in St.
+    destruct (fscope s) as [[|]|]; try (inversion St; subst; simpl in Hin; intuition congruence; fail);
+      destruct (scope s) as [[|]|]; try (inversion St; subst; simpl in Hin; intuition congruence; fail);
+      destruct (guard s); inversion St; subst; simpl in Hin; intuition congruence.
+  - destruct (take id (serves s)) as [[[] r]|]; try discriminate. simpl in St.
+    destruct (scope s) as [[|]|]; inversion St; subst; simpl in Hin; intuition congruence.
+  - destruct (take id (serves s)) as [[[] r]|]; try discriminate.
+    destruct (scope s) as [[|]|]; try discriminate. inversion St; subst. simpl in Hin; tauto.
+  - destruct (take id (serves s)) as [[[] r]|]; try discriminate.
+    destruct (Gen.ParamsC18.udp_restart_guarded) eqn:G; [|reflexivity]. rewrite andb_false_r in St.
+    destruct (stask s); try discriminate; destruct (dying s); try discriminate; inversion St; subst; simpl in Hin; intuition congruence.
+  - destruct (stask s); try discriminate. inversion St; subst. simpl in Hin; tauto.
+  - destruct (dying s); try discriminate. inversion St; subst. simpl in Hin; tauto.
+  - destruct (cwait s); try discriminate. destruct (closer s); try discriminate.
+    unfold start_close in St. simpl in St. destruct (guard s); inversion St; subst; simpl in Hin; intuition congruence.
+  - destruct (closer s) as [[i []]|]; try discriminate.
+    destruct (stask s); try discriminate; inversion St; subst; simpl in Hin; tauto.
+  - destruct (closer s) as [[i []]|]; try discriminate. inversion St; subst; simpl in Hin; intuition congruence.
+  - destruct (take id (waiters s)) as [[g r]|]; try discriminate.
+    destruct (Nat.leb g (fin s)); try discriminate. inversion St; subst; simpl in Hin; intuition congruence.
+Qed.
+
+Lemma no_crash_when_guarded :
+  Gen.ParamsC18.udp_restart_guarded = true ->
+  forall s l s' o id, step s l = Some (s', o) -> ~ In (Ret id OCrash) o.
+Proof. intros H s l s' o id St Hin. pose proof (crash_only_unguarded _ _ _ _ _ St Hin). congruence. Qed.
 
 (* non-vacuity: a state with a running server, a connected client and a pending shutdown is reachable *)
 Lemma example_reachable_busy :
